@@ -9,8 +9,14 @@
    Theorems 1-4 of DESIGN.md section 6/C01; theorem 2 of the design (per-operator flag discipline)
    is a premise of the skeleton ([P_vary]) that the trace checker tests on every submitted
    solution ([produced_b]); per-operator proofs belong to C06.  Theorem 5 (each algorithm's
-   step is an instance of the skeleton) is NOT proved: it is validated on every traced run
-   by [accepts] (c01_accepts_sound / c01_run_checked below). *)
+   step is an instance of the skeleton) is proved for the step MODELS of Model/AlgSteps.v
+   (c01_<alg>_step_ok at the end of this file: GA, ES, NSGA-II with/without archive, NSGA-III,
+   SPEA2, eps-NSGA-II incl. restart, eps-MOEA, GDE3, MOEA/D, IBEA, PAES, PESA2, the particle
+   swarms, CMA-ES, and the initialisations); those models abstract randomness as tapes and
+   operators / survival / archive insertion as functions meeting stated contracts.  That the
+   real code follows these models is validated on every traced run: [accepts] for the generic
+   skeleton (c01_accepts_sound / c01_run_checked) and the attribute-wise data-flow rules of the
+   algorithm's model ([iter_rules], Harness/H01.v c01_flow_check). *)
 From Coq Require Import ZArith Bool List.
 From PV Require Import Model.Evaluate Model.AlgSkeleton Model.AlgSteps Proofs.EvaluateProofs Proofs.AlgSkeletonProofs Proofs.AlgStepsProofs.
 Open Scope Z_scope.
